@@ -17,48 +17,66 @@ SHARES_FORMULAS = {
 
 D3, V2 = ["a", "b", "c"], ["v1", "v2"]
 INITS = {
+    "InitNone": {},
     "InitAB": {"a": {"v1": 2}, "b": {"v1": 1}},
     "InitABC": {"a": {"v1": 2}, "b": {"v1": 1, "v2": 1}},
 }
 
 
-def shares_consts(tok, sh, al, spender, slashable, steps):
-    return dict(Delegator=D3, Validator=V2, TokAmt=tok, ShareAmt=sh, AllowAmt=al, Spender=spender, Slashable=slashable, MaxSteps=steps)
+def shares_consts(tok, und, sh, al, spender, slashable, steps):
+    return dict(Delegator=D3, Validator=V2, TokAmt=tok, UndAmt=und, ShareAmt=sh, AllowAmt=al, Spender=spender, Slashable=slashable,
+                MaxSteps=steps)
 
 
-def shares_harness(init, drain=True):
-    return dict(Delegator=D3, Validator=V2, InitShares=INITS[init], Drain=drain)
+def shares_harness(init, drain=True, tag="x", **kw):
+    # "chain" only labels the run (work files, evidence); the families differ in unit / pre-slash
+    return dict(chain=tag, Delegator=D3, Validator=V2, InitShares=INITS[init], Drain=drain, **kw)
 
 
-def ov(init, cap):
-    return {"InitShares": init, "Cap": cap}
+def ov(init, cap, fden="FdenNone"):
+    return {"InitShares": init, "InitFden": fden, "Cap": cap}
 
 
+# family "tenth": v1 slashed by 10% while the world is built, one model unit = one base unit, so that a token buys
+# 1.111111111111111111 shares and delegations hold FRACTIONAL shares (projected exactly as whole shares + multiples of
+# 0.111111111111111111)
+FRAC = dict(Unit="1", PreSlash="tenth")
 NOSP = []   # no spender: approve / transferFrom are not in the alphabet of that configuration
 SHARES_MC = [
-    dict(name="mcdev", tiers=["dev"], consts=shares_consts([1], [1, 2], [2], ["c"], ["v1"], 2), overrides=ov("InitAB", "CapDev")),
-    dict(name="mcq", tiers=["quick"], consts=shares_consts([1, 2], [1, 2], [0, 2], ["b", "c"], V2, 3), overrides=ov("InitAB", "CapQuick")),
-    dict(name="mct", tiers=["thorough"], consts=shares_consts([1, 2], [1, 2], [0, 2], ["b", "c"], V2, 4), overrides=ov("InitABC", "CapMC"),
+    dict(name="mcdev", tiers=["dev"], consts=shares_consts([1], [1], [1, 2], [2], ["c"], ["v1"], 2), overrides=ov("InitAB", "CapDev")),
+    dict(name="mcq", tiers=["quick"], consts=shares_consts([1, 2], [1, 2], [1, 2], [0, 2], ["b", "c"], V2, 3), overrides=ov("InitAB", "CapQuick")),
+    dict(name="mcqF", tiers=["dev", "quick"], consts=shares_consts([1, 2], [], [1, 2], [1], ["c"], [], 3), overrides=ov("InitNone", "CapFracT", "FdenV1")),
+    dict(name="mct", tiers=["thorough"], consts=shares_consts([1, 2], [1, 2], [1, 2], [0, 2], ["b", "c"], V2, 4), overrides=ov("InitABC", "CapMC"),
+         timeout=2400),
+    dict(name="mctF", tiers=["thorough"], consts=shares_consts([1, 2], [], [1, 2, 3], [1, 2], ["b", "c"], [], 4), overrides=ov("InitNone", "CapFracT", "FdenV1"),
          timeout=2400),
 ]
 SHARES_GEN = [
-    dict(name="gendev", tiers=["dev"], consts=shares_consts([1], [1, 2], [2], ["c"], ["v1"], 1), overrides=ov("InitAB", "CapDev"),
+    dict(name="gendev", tiers=["dev"], consts=shares_consts([1], [1], [1, 2], [2], ["c"], ["v1"], 1), overrides=ov("InitAB", "CapDev"),
          harness=[shares_harness("InitAB")], shards=14, rej_sample=0, explore=1),
+    dict(name="gendevF", tiers=["dev"], consts=shares_consts([1, 2], [], [1, 2], [1], NOSP, [], 1), overrides=ov("InitNone", "CapFracQ", "FdenV1"),
+         harness=[shares_harness("InitNone", tag="tenth", **FRAC)], shards=8, rej_sample=0, explore=1),
     # quick A: stake operations, transfers (incl. to oneself, full / partial, new / existing recipient), rewards, one slash
-    dict(name="genqA", tiers=["quick"], consts=shares_consts([1], [1, 2], [2], NOSP, ["v1"], 3), overrides=ov("InitAB", "CapQuickA"),
+    dict(name="genqA", tiers=["quick"], consts=shares_consts([1], [1], [1, 2], [2], NOSP, ["v1"], 3), overrides=ov("InitAB", "CapQuickA"),
          harness=[shares_harness("InitAB")], shards=14, rej_sample=0, explore=1),
     # quick B: allowances, transferFrom
-    dict(name="genqB", tiers=["quick"], consts=shares_consts([1], [1, 2], [1, 2], ["c"], [], 3), overrides=ov("InitAB", "CapQuickB"),
+    dict(name="genqB", tiers=["quick"], consts=shares_consts([1], [1], [1, 2], [1, 2], ["c"], [], 3), overrides=ov("InitAB", "CapQuickB"),
          harness=[shares_harness("InitAB")], shards=14, rej_sample=0, explore=1),
+    # quick F: fractional shares: delegate 1-2 base tokens after the 10% slash, transfer whole shares, reward block
+    dict(name="genqF", tiers=["quick"], consts=shares_consts([1, 2], [], [1, 2], [1], NOSP, [], 2), overrides=ov("InitNone", "CapFracQ", "FdenV1"),
+         harness=[shares_harness("InitNone", tag="tenth", **FRAC)], shards=14, rej_sample=0, explore=1),
     # thorough A: as quick A, one step deeper, two reward blocks, both validators slashable, b delegates to both validators
-    dict(name="gentA", tiers=["thorough"], consts=shares_consts([1], [1, 2], [2], NOSP, V2, 4), overrides=ov("InitABC", "CapThoroughA"),
+    dict(name="gentA", tiers=["thorough"], consts=shares_consts([1], [1], [1, 2], [2], NOSP, V2, 4), overrides=ov("InitABC", "CapThoroughA"),
          harness=[shares_harness("InitABC")], shards=16, rej_sample=0, explore=2, timeout=2400),
     # thorough B: two spenders, allowances 1 and 2, two approvals, two transferFrom
-    dict(name="gentB", tiers=["thorough"], consts=shares_consts([1], [1, 2], [1, 2], ["b", "c"], [], 3), overrides=ov("InitAB", "CapThoroughB"),
+    dict(name="gentB", tiers=["thorough"], consts=shares_consts([1], [1], [1, 2], [1, 2], ["b", "c"], [], 3), overrides=ov("InitAB", "CapThoroughB"),
          harness=[shares_harness("InitAB")], shards=16, rej_sample=0, explore=2, timeout=2400),
     # thorough C: token amounts 1 and 2 (full undelegation / redelegation of a's stake)
-    dict(name="gentC", tiers=["thorough"], consts=shares_consts([1, 2], [1, 2], [2], NOSP, ["v1"], 3), overrides=ov("InitABC", "CapThoroughA"),
+    dict(name="gentC", tiers=["thorough"], consts=shares_consts([1, 2], [1, 2], [1, 2], [2], NOSP, ["v1"], 3), overrides=ov("InitABC", "CapThoroughA"),
          harness=[shares_harness("InitABC")], shards=16, rej_sample=10, explore=2, timeout=2400),
+    # thorough F: fractional shares, one step deeper, allowances and transferFrom
+    dict(name="gentF", tiers=["thorough"], consts=shares_consts([1, 2], [], [1, 2], [1, 2], ["c"], [], 3), overrides=ov("InitNone", "CapFracT", "FdenV1"),
+         harness=[shares_harness("InitNone", tag="tenth", **FRAC)], shards=16, rej_sample=10, explore=2, timeout=2400),
 ]
 
 
@@ -71,11 +89,12 @@ def shares(pid):
             assumptions=[
                 "every user operation is a real EVM transaction (EvmKeeper.EthereumTx, real interpreter/state DB) to the staking precompile signed by the acting delegator's key; it runs in a cache that is dropped when execution panics (as baseapp.runTx does) and such a transaction counts as refused",
                 "one model unit = 100 FX (one unit of consensus power); genesis validators hold a 100 FX self-delegation, which the projection subtracts from the validator totals; commission 0",
+                "family 'tenth' (configurations *F): validator v1 is slashed by 10% of its power through the real staking keeper while the world is built (before any modelled delegation), one model unit = ONE base unit, so a token buys 1.111111111111111111 shares and delegations hold fractional shares; every share quantity is projected EXACTLY as whole shares + k * 0.111111111111111111 (state variables shares/frac, valShares/valFrac, rate den/fden; anything not of that form sets the 'exact' register); undelegate/redelegate are not in this family's alphabet (their results are not of that form)",
                 "RewardTick = the next block begins: 10 FX of fees in the fee collector, then the application's real BeginBlocker (mint, distribution with both validators voting at equal power, slashing, ...) on the branch; EndBlocker / validator-set updates are not run between operations",
                 "Slash = the next block begins with a 50% slash of the validator's current power through the real staking keeper (distribution hook included), infraction height = current height, so unbonding entries and redelegations are not slashed; at most one slash per validator (environment choice that keeps the exchange rate a power of two)",
                 "delegators are externally owned accounts with the default withdraw address and ample funds (delegateV2 is never refused for lack of funds); contract delegators are covered by C09/C10's caller checks, not here",
                 "unbonding entries and redelegations do not mature between operations (the drain oracle advances time past the unbonding period on a throw-away branch and runs the staking end-blocker); the 7-entries limit is outside the bounds",
-                "observation registers: inv = first broken route of CrisisKeeper.Routes() (all registered staking, distribution, bank, gov, ibc-transfer invariants) evaluated on a branch after EVERY executed transition; drain = every delegator withdraws and fully undelegates everywhere, the unbonding period passes, the staking end-blocker matures the entries, each account receives exactly its unbonding balances, invariants again; pay = for both parties of a transfer: balance delta = rewards owed before - rewards owed after (distribution query); all three are projected into the state and decided by TLC formulas",
+                "the observation functions (rewards owed, inv, drain) are evaluated in the NEXT block (height + 1 on a throw-away branch, no begin-blocker) after every transition, because x/distribution skips its stake sanity check in the block in which a starting info was written; pay is evaluated in the block of the transfer", "observation registers: inv = first broken route of CrisisKeeper.Routes() (all registered staking, distribution, bank, gov, ibc-transfer invariants) evaluated on a branch after EVERY executed transition; drain = every delegator withdraws and fully undelegates everywhere, the unbonding period passes, the staking end-blocker matures the entries, each account receives exactly its unbonding balances, invariants again; pay = for both parties of a transfer: balance delta = rewards owed before - rewards owed after (distribution query); all three are projected into the state and decided by TLC formulas",
                 "inv and drain are memoised on a digest of the staking, distribution, bank, gov, ibc-transfer, mint, slashing and params stores plus block height and time (byte-identical inputs give the same result; account nonces and EVM state are assumed irrelevant to them)",
                 "projection: delegations, validators, unbonding delegations, redelegations through the SDK staking keeper's getters (plain store reads), allowances by raw read of the fx staking store (prefix 0x90), rewards through the distribution querier on a branch",
             ])
@@ -86,6 +105,6 @@ specs.REGISTRY["C11"] = shares("C11")
 
 specs.MANIFEST.update({
  "C11": dict(category="model_checking", technique="TLA+ spec Shares.tla: TLC exhaustive model check + replay of every TLC-generated transition as real EVM transactions to the staking precompile on a chain with real staking/distribution/mint/slashing + TLC evaluation of the C11 formulas (incl. SDK crisis invariants, reward pay-out equation and full-drain availability observed on the real state) on recorded real behaviours",
-             text="Shares.tla models delegations of three accounts at two validators, allowances, accrued-reward flags, incoming redelegations, unbonding balances and the validators' shares/tokens/exchange rate under delegateV2, undelegateV2, redelegateV2, withdraw, approveShares, transferShares (including to oneself, full and partial, new and existing recipient), transferFromShares, reward-producing blocks and a 50% validator slash. TLC checks on all bounded interleavings: shares sum to the validator's total, tokens back shares at the exchange rate, a transfer moves exactly n from sender to recipient (identity for sender = recipient) and never changes validator totals / unbonding / redelegations, transferFrom spends exactly the amount of an allowance that covers it, the sender has no incoming redelegation, both parties are paid. Every generated transition is executed as a real EVM transaction on a branch of the real multistore and the projected state compared; after every transition the registered crisis invariants, the reward pay-out equation of the step and a full drain (everyone withdraws and fully undelegates, entries mature, invariants again) are evaluated on the real state and projected into the state, so that TLC decides them on the recorded real behaviours.",
-             note="bounded: 3 externally-owned delegators, 2 validators, amounts 1-2 units of 100 FX, <=3 (quick) / <=4 (thorough) accepted operations plus one arbitrary further operation, <=2 reward blocks, one 50% slash per validator at the current height (no slashing of unbonding entries/redelegations), no maturing between operations; rejected operations sampled per state (2 quick / 10 thorough); trusted: TLC, the projection (SDK getters + raw allowance reads), the SDK's own invariants as oracle", ref="5 (C11)"),
+             text="Shares.tla models delegations of three accounts at two validators, allowances, accrued-reward flags, incoming redelegations, unbonding balances and the validators' shares/tokens/exchange rate under delegateV2, undelegateV2, redelegateV2, withdraw, approveShares, transferShares (including to oneself, full and partial, new and existing recipient), transferFromShares, reward-producing blocks and a 50% validator slash; a second family runs on a validator slashed by 10% where delegations hold fractional shares (projected exactly) and whole shares are transferred. TLC checks on all bounded interleavings: shares sum to the validator's total, tokens back shares at the exchange rate, a transfer moves exactly n from sender to recipient (identity for sender = recipient) and never changes validator totals / unbonding / redelegations, transferFrom spends exactly the amount of an allowance that covers it, the sender has no incoming redelegation, both parties are paid. Every generated transition is executed as a real EVM transaction on a branch of the real multistore and the projected state compared; after every transition the registered crisis invariants, the reward pay-out equation of the step and a full drain (everyone withdraws and fully undelegates, entries mature, invariants again) are evaluated on the real state and projected into the state, so that TLC decides them on the recorded real behaviours.",
+             note="bounded: 3 externally-owned delegators, 2 validators, amounts 1-2 units of 100 FX, <=3 (quick) / <=4 (thorough) accepted operations plus one arbitrary further operation, <=2 reward blocks, one 50% slash per validator at the current height (no slashing of unbonding entries/redelegations), a 10% slash only while the world is built (fractional-share family: delegate, withdraw, approve, transfer, transferFrom, reward block), no maturing between operations; all rejected operations executed in quick and in thorough A/B, 10 sampled per state in thorough C/F; trusted: TLC, the projection (SDK getters + raw allowance reads), the SDK's own invariants as oracle", ref="5 (C11)"),
 })
